@@ -2,7 +2,8 @@
    Property theorems only (proofs in Proofs/OptionsP.v, CanonP.v, IdentityP.v, GroupingP.v).
    Models: Model/Options.v (option values, Python ==, _make_hashable, Options operations), Model/Identity.v (what
    __eq__ / __hash__ of Feature, Link, Index, SingleFilter look at), Model/Grouping.v
-   (group_features_by_compute_framework_and_options).  All statements are for ALL inputs of the stated fragment. *)
+   (group_features_by_compute_framework_and_options, as repaired by fixes/C15-grouping-by-equality.patch).
+   All statements are for ALL inputs of the stated fragment. *)
 From Coq Require Import List Bool ZArith String Arith Permutation.
 Import ListNotations.
 Require Import MV.Model.Options MV.Model.Identity MV.Model.Grouping MV.Spec.OptionsSpec MV.Spec.GroupingSpec.
@@ -264,11 +265,30 @@ Theorem C15_share_iff_agree_refuted :
 Proof. exact share_iff_agree_refuted_l. Qed.
 Print Assumptions C15_share_iff_agree_refuted.
 
-(* from items back to features: it_kb is the index of the class of features with the same hash INTEGER (the code groups by
-   hash((options, frameworks, type)), not by equality).  Model/Grouping.v says which (options, frameworks) get one integer:
-   those with == canonical forms (canon_eqb), and those whose canonical forms differ only in atoms CPython hashes alike
-   (hnorm: -1 ~ -2, "" ~ 0 ~ False, z ~ z mod 2^61-1, Enum member ~ its name; everything else assumed collision-free and
-   tested by the correspondence).  Equal options are always in one class ... *)
+(* from items back to features: it_kb is the index of the class of features with the same dictionary key
+   (options, frameworks): a Python dict finds a key by hash integer AND == (base_eqb = hash_eqb && opts_agree; code as
+   repaired by fixes/C15-grouping-by-equality.patch -- before, only the integers were compared).  Model/Grouping.v says
+   which (options, frameworks) get one integer: those with == canonical forms (canon_eqb), and those whose canonical
+   forms differ only in atoms CPython hashes alike (hnorm: -1 ~ -2, "" ~ 0 ~ False, z ~ z mod 2^61-1, Enum member ~ its
+   name; everything else assumed collision-free and tested by the correspondence).
+   Equal options have the same hash integer (so the dict never splits them) ... *)
+Theorem C15_equal_options_same_hash : forall a b,
+  wfv (VDict (g_group a)) -> wfv (VDict (g_group b)) -> nofs (VDict (g_group a)) -> nofs (VDict (g_group b)) ->
+  hash_key (VDict (g_group a)) <> None -> hash_key (VDict (g_group b)) <> None ->
+  opts_agree a b = true -> hash_eqb a b = true.
+Proof. exact equal_options_same_hash_l. Qed.
+Print Assumptions C15_equal_options_same_hash.
+
+(* ... hence: one class <-> equal (group options, frameworks).  This is the full statement whose direction -> the
+   unrepaired code violated in two ways (former known findings C15-grouping-conflates-list-tuple and
+   C15-grouping-hash-collision, both fixed by fixes/C15-grouping-by-equality.patch). *)
+Theorem C15_same_class_iff_equal_options : forall a b,
+  wfv (VDict (g_group a)) -> wfv (VDict (g_group b)) -> nofs (VDict (g_group a)) -> nofs (VDict (g_group b)) ->
+  hash_key (VDict (g_group a)) <> None -> hash_key (VDict (g_group b)) <> None ->
+  (base_eqb a b = true <-> opts_agree a b = true).
+Proof. exact same_class_iff_equal_options_l. Qed.
+Print Assumptions C15_same_class_iff_equal_options.
+
 Theorem C15_equal_options_same_class : forall a b,
   wfv (VDict (g_group a)) -> wfv (VDict (g_group b)) -> nofs (VDict (g_group a)) -> nofs (VDict (g_group b)) ->
   hash_key (VDict (g_group a)) <> None -> hash_key (VDict (g_group b)) <> None ->
@@ -276,7 +296,7 @@ Theorem C15_equal_options_same_class : forall a b,
 Proof. exact equal_options_same_class_l. Qed.
 Print Assumptions C15_equal_options_same_class.
 
-(* ... and (equality of hash integers being an equivalence) two features have the same it_kb iff they are in one class *)
+(* two features have the same it_kb iff they are in one class (for any equivalence on the request) *)
 Theorem C15_base_class_iff : forall fs a b,
   (forall x, In x fs -> base_eqb x x = true) ->
   (forall x y, In x fs -> In y fs -> base_eqb x y = true -> base_eqb y x = true) ->
@@ -285,48 +305,45 @@ Theorem C15_base_class_iff : forall fs a b,
 Proof. exact base_class_iff_l. Qed.
 Print Assumptions C15_base_class_iff.
 
-(* FULL STATEMENT: the code groups by EQUALITY of (group options, frameworks) -- group_features_eq is the same two passes
-   over classes of opts_agree (Spec/GroupingSpec.v):
-     forall fs, hashable_request fs -> group_features fs = group_features_eq fs.
-   REFUTED on the faithful model in two disjoint ways (one root cause: the dictionary is keyed by the hash integer):
-     known finding C15-grouping-conflates-list-tuple  (domain kf_canon_conflation): unequal options, == canonical forms;
-     known finding C15-grouping-hash-collision        (domain kf_hash_collision):   different canonical forms, one integer.
-   PROVED outside the union of the two domains (kf_hash_conflation; C15_conflation_domains: it is exactly the union). *)
-Theorem C15_grouping_by_equality_partial : forall fs, hashable_request fs -> kf_hash_conflation fs = false ->
-  group_features fs = group_features_eq fs.
-Proof. exact grouping_by_equality_partial_l. Qed.
-Print Assumptions C15_grouping_by_equality_partial.
+(* FULL STATEMENT (was C15_grouping_by_equality_partial, proved only outside kf_hash_conflation): the code groups by
+   EQUALITY of (group options, frameworks) -- group_features_eq is the same two passes over classes of opts_agree
+   (Spec/GroupingSpec.v) -- for every request with hashable options and every iteration order. *)
+Theorem C15_grouping_by_equality : forall fs, hashable_request fs -> group_features fs = group_features_eq fs.
+Proof. exact grouping_by_equality_l. Qed.
+Print Assumptions C15_grouping_by_equality.
 
+(* the requests on which the hash integer alone would conflate unequal options are exactly the two former
+   known-defect domains *)
 Theorem C15_conflation_domains : forall fs, hashable_request fs ->
   kf_hash_conflation fs = kf_canon_conflation fs || kf_hash_collision fs.
 Proof. exact kf_split_l. Qed.
 Print Assumptions C15_conflation_domains.
 
-(* {"c": [1, 2]} and {"c": (1, 2)}: unequal, one canonical form, one step *)
-Theorem C15_hash_class_refuted :
-  opts_agree hc_a hc_b = false /\ canon_eqb hc_a hc_b = true /\ base_eqb hc_a hc_b = true /\
+(* regression witnesses (the _refuted theorems of the unrepaired model): unequal options with one hash integer are
+   computed in two steps.  {"c": [1, 2]} and {"c": (1, 2)}: one canonical form *)
+Theorem C15_hash_class_regression :
+  opts_agree hc_a hc_b = false /\ canon_eqb hc_a hc_b = true /\ hash_eqb hc_a hc_b = true /\ base_eqb hc_a hc_b = false /\
   kf_canon_conflation [hc_a; hc_b] = true /\ kf_hash_collision [hc_a; hc_b] = false /\ kf_hash_conflation [hc_a; hc_b] = true /\
-  group_features [hc_a; hc_b] = [[0; 1]]%nat /\ group_features_eq [hc_a; hc_b] = [[0]; [1]]%nat.
-Proof. exact hash_conflation_refuted_l. Qed.
-Print Assumptions C15_hash_class_refuted.
+  group_features [hc_a; hc_b] = [[0]; [1]]%nat.
+Proof. exact hash_conflation_regression_l. Qed.
+Print Assumptions C15_hash_class_regression.
 
-(* {"c": -1} and {"c": -2}: unequal, different canonical forms, hash(-1) = hash(-2) = -2, one step *)
-Theorem C15_hash_collision_refuted :
-  opts_agree hc_e hc_f = false /\ canon_eqb hc_e hc_f = false /\ base_eqb hc_e hc_f = true /\
+(* {"c": -1} and {"c": -2}: different canonical forms, hash(-1) = hash(-2) = -2 *)
+Theorem C15_hash_collision_regression :
+  opts_agree hc_e hc_f = false /\ canon_eqb hc_e hc_f = false /\ hash_eqb hc_e hc_f = true /\ base_eqb hc_e hc_f = false /\
   kf_hash_collision [hc_e; hc_f] = true /\ kf_canon_conflation [hc_e; hc_f] = false /\ kf_hash_conflation [hc_e; hc_f] = true /\
-  group_features [hc_e; hc_f] = [[0; 1]]%nat /\ group_features_eq [hc_e; hc_f] = [[0]; [1]]%nat.
-Proof. exact hash_collision_refuted_l. Qed.
-Print Assumptions C15_hash_collision_refuted.
+  group_features [hc_e; hc_f] = [[0]; [1]]%nat.
+Proof. exact hash_collision_regression_l. Qed.
+Print Assumptions C15_hash_collision_regression.
 
 (* the same for every other collision of the modelled hash ("" / 0, 2^61-1 / 0, Enum member / its name, inside tuples,
-   lists, nested dicts, sets): collide, not equal, one step in the faithful model, two under equality *)
-Theorem C15_hash_collision_pairs_refuted :
+   lists, nested dicts, sets): one hash integer, not equal, two steps *)
+Theorem C15_hash_collision_pairs_regression :
   forallb (fun p => let a := gf1 0 (fst p) in let b := gf1 1 (snd p) in
-                    base_eqb a b && negb (canon_eqb a b) && negb (opts_agree a b)
-                    && all2 (all2 Nat.eqb) (group_features [a; b]) [[0; 1]]%nat
-                    && all2 (all2 Nat.eqb) (group_features_eq [a; b]) [[0]; [1]]%nat) collide_pairs = true.
+                    hash_eqb a b && negb (canon_eqb a b) && negb (opts_agree a b) && negb (base_eqb a b)
+                    && all2 (all2 Nat.eqb) (group_features [a; b]) [[0]; [1]]%nat) collide_pairs = true.
 Proof. exact hash_collision_pairs_l. Qed.
-Print Assumptions C15_hash_collision_pairs_refuted.
+Print Assumptions C15_hash_collision_pairs_regression.
 
 (* context options never separate (or join) anything: changing the context of any features leaves the grouping as is *)
 Theorem C15_context_never_splits : forall fs fs', Forall2 same_but_context fs fs' -> group_features fs = group_features fs'.
